@@ -585,6 +585,62 @@ def copydata_worker(_job):
     return acc
 
 
+def readdir_bound_worker(_job):
+    """one READDIR request (17 bytes) against directories of 130, 300 and 1200 entries, protocol versions 3-6,
+    applications that supply long names or leave them to the library: the largest reply must not grow with the
+    directory (the listing comes in bounded pieces, each asked for by its own request), and the pieces together
+    are the directory, each entry once"""
+    import struct
+    import c14
+    from asyncssh.sftp import SFTPName, SFTPAttrs, SFTPServer
+    acc = core.Acc()
+    root = os.path.join(c14.SCRATCH, 'rdbound-%d' % os.getpid())
+    sb = lambda b: struct.pack('>I', len(b)) + b
+    try:
+        for v in (3, 4, 5, 6):
+            for supplied in (False, True):
+                biggest = {}
+                for n in (130, 300, 1200):
+                    class App(SFTPServer):
+                        async def scandir(self, path, n=n):
+                            for i in range(n):
+                                fn = b'entry-%05d' % i
+                                yield SFTPName(fn, (b'long ' + fn) if supplied else b'', SFTPAttrs(size=i, permissions=0o100644))
+                    c14._mkroot(root)
+                    script = [(12, 10 + i, sb(b'@DIR@')) for i in range(14)]
+                    viol = []
+                    try:
+                        replies, _h, ended, lexc = c14.server_session(v, root, App, script)
+                    except Livelock as exc:
+                        replies, lexc = [], []
+                        viol.append(('livelock', str(exc)))
+                    names, sizes = [], []
+                    for p_ in replies:
+                        if p_[0] == 104:
+                            pk = SSHPacket(p_[5:])
+                            cnt = pk.get_uint32()
+                            sizes.append(cnt)
+                            for _ in range(cnt):
+                                names.append(SFTPName.decode(pk, v).filename)
+                    biggest[n] = max(sizes) if sizes else 0
+                    if not viol and names != [b'entry-%05d' % i for i in range(n)]:
+                        viol.append(('listing-altered', '%d entries listed for a directory of %d (first difference at %d)' % (
+                            len(names), n, next((i for i, x in enumerate(names) if x != b'entry-%05d' % i), len(names)))))
+                    if lexc:
+                        viol.append(('loop-exception', repr(lexc[0].get('exception') or lexc[0].get('message'))[:200]))
+                    acc.add(core.digest(('rdbound', v, supplied, n, tuple(sizes))), transitions=len(script),
+                            sample={'readdir': {'version': v, 'entries': n, 'names_per_reply': sizes}} if (v, supplied, n) == (4, False, 300) else None)
+                    for k, d in viol:
+                        acc.violation('sftpserver:%s:readdir' % k, '%s ; v%d long names supplied=%s' % (d, v, supplied), {'kind': 'rdbound'})
+                if biggest[1200] > biggest[300] or biggest[300] > biggest[130] + 170:
+                    acc.violation('sftpserver:reply-grows-with-directory:readdir',
+                                  'largest single READDIR reply: %r names for directories of 130 / 300 / 1200 entries ; v%d long names supplied=%s'
+                                  % ([biggest[k] for k in (130, 300, 1200)], v, supplied), {'kind': 'rdbound'})
+    finally:
+        shutil.rmtree(root, ignore_errors=True)
+    return acc
+
+
 def nesting_worker(_job):
     """DER values nested 10 .. 50000 deep (SEQUENCE, SET, context tags; definite lengths) given to der_decode and to
     the key / certificate importers, raw and PEM-armoured: a value or the documented error -- the depth of the
@@ -700,6 +756,7 @@ def run(tier, seed):
     acc.merge(core.pmap(sftp_version_worker, [0]))
     acc.merge(core.pmap(nesting_worker, [0]))
     acc.merge(core.pmap(copydata_worker, [0]))
+    acc.merge(core.pmap(readdir_bound_worker, [0]))
     return acc
 
 
@@ -709,6 +766,8 @@ def replay(r):
         return socks_worker([(bytes.fromhex(r['blob']), r['split'])])
     if r['kind'] == 'copydata':
         return copydata_worker(0)
+    if r['kind'] == 'rdbound':
+        return readdir_bound_worker(0)
     if r['kind'] == 'nesting':
         return nesting_worker(0)
     if r['kind'] == 'sftp-version':
